@@ -120,6 +120,34 @@ def _check_1d(desc, tier, V, st):
                     if not (ok and ok2):
                         V('1d-array-order-dependent:der%d' % der, '%s coeffs=%s: array entry points give wrong values for a %s array of points (off by %.3g)' % (
                             key, name, oname, max(info[0], info2[0])))
+                if name == 'dense':
+                    # equivalent ways of handing over the same points: list, tuple, default der, integer-valued points as an
+                    # integer array / Python ints (every breakpoint of the unit-scale spaces is an integer)
+                    styles = [('list', list(map(float, X))), ('tuple', tuple(map(float, X)))]
+                    ints = [int(x) for x in X if float(x) == int(x)]
+                    if len(ints) >= 2:
+                        styles += [('int-array', np.array(ints)), ('int-list', ints)]
+                    for sname, arg in styles:
+                        st['evals'] += 1
+                        g2 = np.asarray(spl.eval(arg, der), dtype=float) if (der or sname.startswith('int')) else np.asarray(spl.eval(arg), dtype=float)
+                        ref_rows = ref[der][0]
+                        idx = [int(np.where(X == float(a))[0][0]) for a in np.asarray(arg, dtype=float)]
+                        want2 = (ref_rows @ c)[idx]
+                        alt = ref[der][1]
+                        bad2 = ~(np.abs(g2 - want2) <= _tol(S, c, der))
+                        if alt is not None:
+                            bad2 &= ~(np.abs(g2 - (alt @ c)[idx]) <= _tol(S, c, der))
+                        if g2.shape != want2.shape or bad2.any():
+                            V('1d-eval-call-style:%s:der%d' % (sname, der), '%s: Spline1D.eval(%s of points%s) off by %.3g' % (
+                                key, sname, '' if (der or sname.startswith('int')) else ', der omitted', float(np.abs(g2 - want2).max()) if g2.shape == want2.shape else float('nan')))
+                    for xi in ints[:3]:
+                        st['evals'] += 1
+                        v2 = float(spl.eval(xi, der))
+                        k = int(np.where(X == float(xi))[0][0])
+                        w2 = float((ref[der][0] @ c)[k])
+                        w3 = float((ref[der][1] @ c)[k]) if ref[der][1] is not None else w2
+                        if not (abs(v2 - w2) <= _tol(S, c, der) or abs(v2 - w3) <= _tol(S, c, der)):
+                            V('1d-eval-call-style:python-int:der%d' % der, '%s: Spline1D.eval(%d, der=%d) = %r, expected %r' % (key, xi, der, v2, w2))
                 sc = np.array([spl.eval(float(x), der) for x in X])
                 ok, info = agree(sc, c, der)
                 if not ok:
